@@ -124,3 +124,61 @@ func ZZC01_breader_seek() {
 	}
 	zzReach("still_open")
 }
+
+// zzBoundedReader: an arbitrary reader for callers that read until EOF
+// themselves (io.ReadAll): at most two bytes per call, and the stream ends
+// (EOF or failure) by the K-th call at the latest.
+type zzBoundedReader struct{ calls, max int }
+
+func (r *zzBoundedReader) Read(p []byte) (int, error) {
+	r.calls++
+	lim := 2
+	if len(p) < lim {
+		lim = len(p)
+	}
+	n := zzInt("rn", 0, lim)
+	for i := 0; i < n; i++ {
+		p[i] = zzByte("rb")
+	}
+	e := zzInt("rerr", 0, 2)
+	if r.calls >= r.max && e == 0 {
+		e = 1
+	}
+	switch e {
+	case 1:
+		return n, io.EOF
+	case 2:
+		return n, io.ErrUnexpectedEOF
+	}
+	return n, nil
+}
+
+// Tar form of a blob: RawBody reads the stream to its end. It returns without
+// error only with bytes that hash to the descriptor digest and, for a stated
+// size, number exactly that many - whether the tar reader was made directly or
+// converted from the reader BlobGet returns.
+func ZZC01_tarreader_rawbody() {
+	alg := zzAlg()
+	d := digest.Digest(zzDigest("d", string(alg)))
+	S := zzInt("size", 0, 4+zzTier())
+	src := &zzBoundedReader{max: 3 + zzTier()}
+	desc := descriptor.Descriptor{Digest: d, Size: int64(S)}
+	var tr *BTarReader
+	if zzBool("converted_from_reader") {
+		br := NewReader(WithDesc(desc), WithReader(src))
+		t, err := br.ToTarReader()
+		zzAssert(err == nil, "unread_reader_converts")
+		tr = t
+	} else {
+		tr = NewTarReader(WithDesc(desc), WithReader(src))
+	}
+	b, err := tr.RawBody()
+	if err != nil {
+		zzReach("error")
+		return
+	}
+	zzReach("clean")
+	zzAssert(alg.FromBytes(b) == d, "raw_body_implies_digest")
+	zzAssert(S == 0 || len(b) == S, "raw_body_implies_size")
+	zzAssert(tr.GetDescriptor().Digest == d, "descriptor_digest_kept")
+}
